@@ -11,6 +11,7 @@
 Require Import Base Overlap TokenSeq Pattern PatternCost PatternImpls Tables_patterns GoDirective TokenSeqProofs PatternProofs PatternCostProofs C01History.
 Require Import C01Len C01LenProofs Tables_rulebodies C01RuleBodies C01EndToEnd C01EndToEndProofs.
 Require Import C01Bodies Tables_bodyshapes C01BodiesProofs.
+Require Import C01Struct C01StructProofs.
 (* C02's lexer model and proofs (not imported: its token type has the same name as ours) *)
 Require Lexer LexerProofs Condense.
 
@@ -468,7 +469,8 @@ Check C01_repeated_words_slice_total : forall chunk, repeated_words_uses chunk =
 Print Assumptions C01_repeated_words_slice_total.
 
 (* the census of the struct rules (`impl Linter for`, 22 of them): 63 unwrap / expect / index / slice / panicking-macro /
-   Span::new sites in 17 rules, 5 rules without any; 3 sites are covered by theorems above, the other 60 are NAMED in
+   Span::new sites in 17 rules, 5 rules without any; 49 sites are covered by theorems (3 above, 46 in phase 6 below:
+   struct_sites_proved names the theorem of each), the other 14 are NAMED in
    Tables_bodyshapes.struct_rule_sites (regenerated on every run) and reached by search only.  The functions whose text
    the hand-written models follow are pinned.  A change in any of these numbers breaks this theorem. *)
 Theorem C01_struct_rule_census :
@@ -477,7 +479,8 @@ Theorem C01_struct_rule_census :
   List.length struct_rules_no_site + List.length rules_with_sites = List.length struct_rules_all /\
   List.length struct_rule_sites = 63 /\
   count_kind k_unwrap + count_kind k_expect + count_kind k_index + count_kind k_span_new + count_kind k_macro = 63 /\
-  List.length struct_sites_proved = 3.
+  List.length struct_sites_proved = 49 /\
+  List.length struct_rule_sites - List.length struct_sites_proved = 14.
 Proof. exact struct_rule_census. Qed.
 Check C01_struct_rule_census :
   pinned_bodies = expected_pinned /\
@@ -485,8 +488,193 @@ Check C01_struct_rule_census :
   List.length struct_rules_no_site + List.length rules_with_sites = List.length struct_rules_all /\
   List.length struct_rule_sites = 63 /\
   count_kind k_unwrap + count_kind k_expect + count_kind k_index + count_kind k_span_new + count_kind k_macro = 63 /\
-  List.length struct_sites_proved = 3.
+  List.length struct_sites_proved = 49 /\
+  List.length struct_rule_sites - List.length struct_sites_proved = 14.
 Print Assumptions C01_struct_rule_census.
+
+(* ================= phase 6: struct-rule sites guarded by the shape of the loop they sit in (Model/C01Struct.v) =================
+   46 of the 60 named sites; tools/tables/bodyshapes.py pins the Rust text of every function modelled (sha256) and lists the
+   sites with the theorem that covers them (struct_sites_proved).  No premise on the tokens except for the two sentence loops
+   (the pattern's `matches` must return: tokens inside the text, as everywhere in this file). *)
+(* AnA::lint: for neighbouring word indices (tuple_windows over iter_word_indices) `chunk[first_idx..second_idx]`,
+   `chunk[first_idx + 1..second_idx]`, `&chunk[first_idx]`, `&chunk[second_idx]` are in range on EVERY chunk;
+   starts_with_vowel: `word[0]` is reached only on a non-empty word *)
+Theorem C01_an_a_sites_total :
+  (forall chunk, ana_uses chunk = Ok tt) /\ (forall is_upper word, exists r, vowel_head is_upper word = Ok r).
+Proof. exact an_a_sites_total. Qed.
+Check C01_an_a_sites_total :
+  (forall chunk, ana_uses chunk = Ok tt) /\ (forall is_upper word, exists r, vowel_head is_upper word = Ok r).
+Print Assumptions C01_an_a_sites_total.
+
+(* LinkingVerbs::lint: for every index of iter_linking_verb_indices (a filter of iter_word_indices, `lv` arbitrary) `&chunk[idx]` and
+   `&chunk[0..idx]` are in range, and `prev_word.kind.as_word().unwrap()` is Some because last_word() only returns Word tokens *)
+Theorem C01_linking_verbs_sites_total :
+  forall lv chunk, linking_verbs_uses lv chunk = Ok tt.
+Proof. exact linking_verbs_uses_total. Qed.
+Check C01_linking_verbs_sites_total :
+  forall lv chunk, linking_verbs_uses lv chunk = Ok tt.
+Print Assumptions C01_linking_verbs_sites_total.
+
+(* NoOxfordComma: match_to_lint's `&matched_toks[last_comma_index]` is in range on EVERY slice (last_<thing>_index is below len);
+   the whole rule — iter_sentences, its copy of run_on_chunk (`&sentence[tok_cursor..]`, `&sentence[tok_cursor..tok_cursor + match_len]`),
+   match_to_lint on every match — returns for every pattern on tokens that lie inside the text *)
+Theorem C01_no_oxford_comma_total :
+  (forall f mt, exists r, last_index_body f mt = Ok r) /\
+  (forall leaf oracle (src : text), oracle_total_on oracle src (D_any leaf src) ->
+   forall is_comma p toks, D_any leaf src toks ->
+   exists l, no_oxford_comma_lint leaf oracle is_comma p toks src = Ok l).
+Proof. exact no_oxford_comma_sites_total. Qed.
+Check C01_no_oxford_comma_total :
+  (forall f mt, exists r, last_index_body f mt = Ok r) /\
+  (forall leaf oracle (src : text), oracle_total_on oracle src (D_any leaf src) ->
+   forall is_comma p toks, D_any leaf src toks ->
+   exists l, no_oxford_comma_lint leaf oracle is_comma p toks src = Ok l).
+Print Assumptions C01_no_oxford_comma_total.
+
+(* OxfordComma::lint: the same loop started at 0 or at the first comma (or len) — whatever the preposition test says (`skip` arbitrary):
+   both slices in range, within |sentence| + 1 rounds, ranges non-empty / inside / increasing.  NOT covered: match_to_lint's
+   `&matched_toks[conj_index - 2]` (needs: the last conjunction of a match is the and/or/nor of the pattern — dictionary metadata) *)
+Theorem C01_oxford_comma_loop_total :
+  forall leaf oracle (src : text), oracle_total_on oracle src (D_any leaf src) ->
+  (forall skip is_comma p s, D_any leaf src s ->
+   exists l, oxford_loop leaf oracle skip is_comma p s src = Ok l /\ ranges_ok (oxford_start skip is_comma s) l (length s)) /\
+  (forall skip is_comma p toks, D_any leaf src toks ->
+   exists l, oxford_comma_loops leaf oracle skip is_comma p toks src = Ok l).
+Proof. exact oxford_comma_loop_sites_total. Qed.
+Check C01_oxford_comma_loop_total :
+  forall leaf oracle (src : text), oracle_total_on oracle src (D_any leaf src) ->
+  (forall skip is_comma p s, D_any leaf src s ->
+   exists l, oxford_loop leaf oracle skip is_comma p s src = Ok l /\ ranges_ok (oxford_start skip is_comma s) l (length s)) /\
+  (forall skip is_comma p toks, D_any leaf src toks ->
+   exists l, oxford_comma_loops leaf oracle skip is_comma p toks src = Ok l).
+Print Assumptions C01_oxford_comma_loop_total.
+
+(* Spaces::lint: the let-else `panic!` is unreachable on what iter_spaces yields; under the slice pattern [.., Word, Space, Punctuation]
+   `sentence.len() - 2`, `- 1` do not underflow, the slice is in range and non-empty, `.span().unwrap()` is Some (on ANY tokens) *)
+Theorem C01_spaces_sites_total :
+  (forall is_space sentence, spaces_kinds is_space sentence = Ok tt) /\
+  (forall is_space is_punct sentence, exists r, spaces_tail is_space is_punct sentence = Ok r).
+Proof. exact spaces_sites_total. Qed.
+Check C01_spaces_sites_total :
+  (forall is_space sentence, spaces_kinds is_space sentence = Ok tt) /\
+  (forall is_space is_punct sentence, exists r, spaces_tail is_space is_punct sentence = Ok r).
+Print Assumptions C01_spaces_sites_total.
+
+(* SentenceCapitalization::lint: `paragraph.iter_sentences().next().unwrap()` — under its `count() == 1` guard, and even without it:
+   iter_chunks / iter_sentences / iter_paragraphs yield at least one piece for EVERY token list *)
+Theorem C01_first_sentence_total :
+  (forall para, exists r, only_sentence para = Ok r) /\ (forall para, exists s, first_sentence para = Ok s) /\
+  (forall f ts cs, iter_by f ts = Ok cs -> cs <> []).
+Proof. exact first_sentence_sites_total. Qed.
+Check C01_first_sentence_total :
+  (forall para, exists r, only_sentence para = Ok r) /\ (forall para, exists s, first_sentence para = Ok s) /\
+  (forall f ts cs, iter_by f ts = Ok cs -> cs <> []).
+Print Assumptions C01_first_sentence_total.
+
+(* CapitalizePersonalPronouns: `replacement[0] = 'I'` only after a match against six non-empty literals; MergeWords: `a_chars[0]`,
+   `b_chars[0]` only after `len() == 1 &&` *)
+Theorem C01_small_index_sites_total :
+  (forall content, exists r, cpp_replacement content = Ok r) /\
+  (forall is_upper a b, exists r, merge_words_skip is_upper a b = Ok r).
+Proof. exact small_index_sites_total. Qed.
+Check C01_small_index_sites_total :
+  (forall content, exists r, cpp_replacement content = Ok r) /\
+  (forall is_upper a b, exists r, merge_words_skip is_upper a b = Ok r).
+Print Assumptions C01_small_index_sites_total.
+
+(* phase 6 non-vacuity: the guarded paths are taken on concrete inputs and the same checked operations FAIL off them *)
+Example C01_struct_sites_nonvacuous :
+  (* AnA / LinkingVerbs on "I should\n of": the neighbours are (0,2), (2,5); an index pair that is NOT one fails *)
+  (pairs_adjacent (word_indices ex_modal_toks) = [(0, 2); (2, 5)] /\ ana_uses ex_modal_toks = Ok tt /\
+   ana_use ex_modal_toks (2, 7) = Panic PIndex /\ ana_use ex_modal_toks (5, 2) = Panic PIndex) /\
+  (linking_verbs_uses (fun i => 1 <? i) ex_modal_toks = Ok tt /\ linking_use ex_modal_toks 6 = Panic PIndex /\
+   as_word_unwrap (xs 1 2) = Panic PUnwrap) /\
+  (* the sentence loops: word-whitespace-word from 0 and from the first "comma" (here: whitespace, position 1) *)
+  (last_index_body (flag F_WS) ex_modal_toks = Ok (Some (mkspan 9 10)) /\ last_index_body (flag F_ADJ) ex_modal_toks = Ok None /\
+   no_oxford_comma_lint ex_true ex_otrue (flag F_WS) ex_wsw ex_modal_toks ex_modal_src = Ok [Some (mkspan 1 2)] /\
+   oxford_start true (flag F_WS) ex_modal_toks = 1 /\ oxford_start true (flag F_ADJ) ex_modal_toks = 6 /\
+   oxford_loop ex_true ex_otrue true (flag F_WS) ex_wsw ex_modal_toks ex_modal_src = Ok [(2, 6)] /\
+   oxford_loop ex_true ex_otrue false (flag F_WS) ex_wsw ex_modal_toks ex_modal_src = Ok [(0, 3)]) /\
+  (* Spaces: word, space, punctuation at the end flags the space; two tokens do not reach the slice *)
+  (spaces_tail (flag F_WS) (fun t => tkid t =? 3) [xw 0 1; xs 1 2; xp 2 3] = Ok (Some (mkspan 1 2)) /\
+   spaces_tail (flag F_WS) (fun t => tkid t =? 3) [xs 1 2; xp 2 3] = Ok None /\ spaces_kinds (flag F_WS) ex_modal_toks = Ok tt) /\
+  (* an empty paragraph has one (empty) sentence; unwrap on no sentence at all would panic *)
+  (first_sentence [] = Ok [] /\ only_sentence ex_modal_toks = Ok (Some ex_modal_toks) /\ first_chk (@nil (list tok)) = Panic PUnwrap) /\
+  (* i'm -> I'm; the empty word matches no form (set_nth on it would panic) *)
+  (cpp_replacement (ch [105; 39; 109]) = Ok (Some (ch [73; 39; 109])) /\ cpp_replacement [] = Ok None /\
+   set_nth (@nil N) 0 73%N = Panic PIndex /\
+   merge_words_skip (fun c => N.eqb c 73) (ch [105]) (ch [73]) = Ok true /\
+   merge_words_skip (fun c => N.eqb c 73) [] (ch [73; 73]) = Ok false /\ nth_chk (@nil N) 0 = Panic PIndex).
+Proof. exact struct_examples. Qed.
+
+(* the rules that walk the whole document with document.get_token(i): the index an iter_<thing>_indices yields is a token
+   index (`.unwrap()` is Some); AdjectiveOfA's four look-ahead unwraps sit behind its is_none() test; CommaFixes takes ci - 2 /
+   ci - 1 only when ci >= 2 / 1 and unwraps toks.1 only in arms whose pattern says Some(Space(_)); InflectedVerbAfterTo's four
+   `&chars[..chars.len() - k]` sit behind `chars.len() < 4 => continue`.  On EVERY document, whatever the kinds.  NOT covered: the
+   `Span::new(a.start, b.end)` sites (need text order, false on Markdown) and CommaFixes' `.first().unwrap()` (needs a non-empty comma) *)
+Theorem C01_get_token_sites_total :
+  (forall is_adj skip is_of doc, adjective_of_a_uses is_adj skip is_of doc = Ok tt) /\
+  (forall is_prep doc, inflected_preps is_prep doc = Ok tt) /\
+  (forall ends_ed ends_es ends_s chars, inflected_stems ends_ed ends_es ends_s chars = Ok tt) /\
+  (forall is_comma is_space doc, comma_fixes_uses is_comma is_space doc = Ok tt).
+Proof. exact get_token_sites_total. Qed.
+Check C01_get_token_sites_total :
+  (forall is_adj skip is_of doc, adjective_of_a_uses is_adj skip is_of doc = Ok tt) /\
+  (forall is_prep doc, inflected_preps is_prep doc = Ok tt) /\
+  (forall ends_ed ends_es ends_s chars, inflected_stems ends_ed ends_es ends_s chars = Ok tt) /\
+  (forall is_comma is_space doc, comma_fixes_uses is_comma is_space doc = Ok tt).
+Print Assumptions C01_get_token_sites_total.
+
+Example C01_get_token_sites_nonvacuous :
+  (* "a of a"-shaped document: adjectives (here: words) at 0, 2, 4 — the look-ahead past the end is None, not a panic;
+     an index that is NOT a token index panics on the first unwrap *)
+  (term_indices (flag F_WORD) [xw 0 1; xs 1 2; xw 2 4; xs 4 5; xw 5 6] = [0; 2; 4] /\
+   adjective_of_a_uses (flag F_WORD) (fun _ => false) (fun _ => true) [xw 0 1; xs 1 2; xw 2 4; xs 4 5; xw 5 6] = Ok tt /\
+   adjective_of_a_use (fun _ => false) (fun _ => true) [xw 0 1] 1 = Panic PUnwrap) /\
+  (* "used": all four stems; a two-letter word would underflow without the length test *)
+  (inflected_stems true true true (ch [117; 115; 101; 100]) = Ok tt /\ stem_cut (ch [101; 100]) 3 = Panic PUnderflow /\
+   stem_cut (ch [101; 100]) 2 = Ok tt) /\
+  (* commas at 0 and 3: ci - 2 / ci - 1 are only taken when they exist *)
+  (comma_fixes_uses (fun t => tkid t =? 4) (flag F_WS) [xc 0 1; xw 1 2; xs 2 3; xc 3 4] = Ok tt /\
+   comma_toks [xc 0 1; xw 1 2; xs 2 3; xc 3 4] 3 = Ok (Some (xw 1 2), Some (xs 2 3), xc 3 4) /\
+   comma_toks [xc 0 1; xw 1 2; xs 2 3; xc 3 4] 0 = Ok (None, None, xc 0 1) /\
+   comma_toks [xc 0 1] 1 = Panic PUnwrap /\
+   comma_space_before (flag F_WS) (Some (xs 2 3)) = Ok (Some (xs 2 3)) /\ unwrap_chk (@None tok) = Panic PUnwrap).
+Proof. exact get_token_examples. Qed.
+
+(* SpellCheck / SpelledNumbers, the sites that do not depend on the dictionary: NonZero::new(10000); as_word() / as_number() on what
+   iter_words / iter_numbers yield; resize_with(3, || panic!()) only shrinks; `.last().unwrap()` behind `len() == 1`;
+   spell_out_number: every inner unwrap succeeds and the recursion is at most 3 deep for EVERY num (finite sweep below 1000, None
+   above), so the unwrap in lint (value < 10) succeeds.  f32 log10 is modelled as the integer logarithm.  NOT covered:
+   get_word_metadata(v).unwrap() (dictionary), to_uppercase().next().unwrap() (std) *)
+Theorem C01_spell_sites_total :
+  lru_capacity = Ok 10000%N /\
+  (forall doc, spell_check_words doc = Ok tt) /\
+  (forall (poss : list text), exists r, spell_possibilities poss = Ok r /\ List.length r <= 3) /\
+  (forall (poss : list text), exists r, spell_message poss = Ok r) /\
+  (forall doc, spelled_numbers_toks doc = Ok tt) /\
+  (forall num, spell_out_number 4 num = Ok (if 999 <? num then None else Some tt)) /\
+  (forall v, v < 10 -> spelled_numbers_use v = Ok tt).
+Proof. exact spell_sites_total. Qed.
+Check C01_spell_sites_total :
+  lru_capacity = Ok 10000%N /\
+  (forall doc, spell_check_words doc = Ok tt) /\
+  (forall (poss : list text), exists r, spell_possibilities poss = Ok r /\ List.length r <= 3) /\
+  (forall (poss : list text), exists r, spell_message poss = Ok r) /\
+  (forall doc, spelled_numbers_toks doc = Ok tt) /\
+  (forall num, spell_out_number 4 num = Ok (if 999 <? num then None else Some tt)) /\
+  (forall v, v < 10 -> spelled_numbers_use v = Ok tt).
+Print Assumptions C01_spell_sites_total.
+
+Example C01_spell_sites_nonvacuous :
+  (* five possibilities are cut to three without calling the closure; growing WOULD call it *)
+  (spell_possibilities [1; 2; 3; 4; 5] = Ok [1; 2; 3] /\ resize_with_panic [1; 2] 3 = Panic PUnwrap /\
+   spell_message [7] = Ok (Some 7) /\ spell_message (@nil nat) = Ok None /\ last_chk (@nil nat) = Panic PUnwrap) /\
+  (as_word_unwrap (xs 0 1) = Panic PUnwrap /\ spell_check_words ex_modal_toks = Ok tt /\ nonzero_new 0%N = None) /\
+  (* 7, 300, 999 = 900 + 99 = 900 + (90 + 9) are spelled out; 1000 is None and unwrapping THAT panics *)
+  (spelled_numbers_use 7 = Ok tt /\ spell_out_number 4 300 = Ok (Some tt) /\ spell_out_number 4 999 = Ok (Some tt) /\
+   spell_out_number 4 1000 = Ok None /\ spelled_numbers_use 1000 = Panic PUnwrap /\ spell_out_number 2 999 = Panic PFuel).
+Proof. exact spell_examples. Qed.
 
 (* the premises of C01_pattern_bounded hold for "I know the how" with closures / oracles that return,
    and the theorem's conclusion is the interesting one there: TheHowWhy's pattern on the last three
